@@ -56,6 +56,9 @@ ANCHORS = {
     "C10": [(P + "cfg/cfg.py", "substitute"), (P + "cfg/cfg.py", "concatenate"), (P + "cfg/cfg.py", "reverse")],
     "C11": [(P + "cfg/cfg.py", "intersection"), (P + "cfg/cfg.py", "_intersection_when_terminal"),
             (P + "cfg/cfg.py", "_intersection_starting_rules"), (P + "pda/pda.py", "intersection")],
+    "C12": [(P + "cfg/cfg.py", "is_empty"), (P + "cfg/cfg.py", "get_generating_symbols"), (P + "cfg/cfg.py", "get_nullable_symbols"),
+            (P + "cfg/cfg.py", "_get_generating_or_nullable"), (P + "cfg/cfg.py", "_set_impacts_and_remaining_lists"),
+            (P + "cfg/cfg.py", "get_reachable_symbols"), (P + "cfg/cfg.py", "is_finite"), (P + "cfg/cfg.py", "get_words")],
     "C13": [(P + "pda/pda.py", "to_final_state"), (P + "pda/pda.py", "to_empty_stack"), (P + "pda/pda.py", "to_cfg"),
             (P + "cfg/cfg.py", "to_pda")],
     "C14": [(P + "cfg/llone_parser.py", "get_llone_parse_tree"), (P + "cfg/llone_parser.py", "get_llone_parsing_table"),
